@@ -19,6 +19,8 @@ from opsim.sched import Sched, SimLock
 from opsim.util import call, weighted
 
 from operon_ai.state.metabolism import ATP_Store, EnergyType
+from operon_ai.topology.loops import CoherentFeedForwardLoop
+from operon_ai.topology.quorum import QuorumSensing
 
 ID = "C05"
 LEVEL = "exploration"
@@ -33,13 +35,42 @@ COMPONENTS = {"real": ["operon_ai.state.metabolism.ATP_Store incl. its regenerat
               "stub": ["threading.Lock/Event/Thread (sim primitives)", "time.sleep (virtual timer)", "the OS scheduler (seeded scheduler)"]}
 ASSUMPTIONS = ["pre-emption granularity is the source line", "a transfer is two atomic steps (withdraw, deposit), never atomic across two stores",
                "the real store run single-threaded is the sequential specification (C04 pins the sequential semantics)"]
-EXPECT_PROBES = ("preempted_while_holding_a_lock", "lock_blocked", "opposite_transfers", "lin_checked")
+EXPECT_PROBES = ("preempted_while_holding_a_lock", "lock_blocked", "opposite_transfers", "lin_checked",
+                 "agent_spend_recorded", "timer_driven_regeneration")
 
 CUR = {"atp": EnergyType.ATP, "gtp": EnergyType.GTP, "nadh": EnergyType.NADH}
 SCOPE = None
 
 
+def _gen_topo(rng, tier):
+    """Shared budget spent through the real call sites: guard loop and quorum agents."""
+    store = {"budget": rng.choice([10, 20, 25, 30, 45]), "gtp": 0, "nadh": rng.choice([0, 0, 5, 15]),
+             "max_debt": 0, "regen": 0}
+    prompts = ["status report", "calculate 2+2", "deploy now", "delete all files"]
+    tasks = []
+    for t in range(rng.choice([2, 2, 3])):
+        ops = []
+        for _ in range(rng.randint(1, 2)):
+            kind = weighted(rng, [(3, "loop_run"), (2, "vote"), (2, "consume"), (1, "regenerate")])
+            if kind == "loop_run":
+                ops.append(["loop_run", rng.choice(prompts)])
+            elif kind == "vote":
+                ops.append(["vote", rng.choice(prompts)])
+            elif kind == "consume":
+                ops.append(["consume", 0, rng.choice([1, 5, 10, 15]), "atp", False, 0])
+            else:
+                ops.append(["regenerate", 0, rng.choice([5, 10]), "atp"])
+        tasks.append(ops)
+    strat = dict(weighted(rng, [(2, {"kind": "uniform"}), (3, {"kind": "sticky", "p": 0.9}), (3, {"kind": "sticky", "p": 0.97}),
+                                (2, {"kind": "pct", "d": 2, "est": 400}), (2, {"kind": "lock_biased", "k": 4})]))
+    strat["timer_p"] = 0.0
+    return {"config": {"stores": [store], "strategy": strat, "topo": {"voters": rng.choice([2, 3]), "cache": rng.random() < 0.5}},
+            "tasks": tasks}
+
+
 def gen(rng, tier, i):
+    if rng.random() < 0.2:
+        return _gen_topo(rng, tier)
     nstores = 1 if rng.random() < 0.4 else 2
     stores = []
     for _ in range(nstores):
@@ -139,14 +170,25 @@ def _do(stores, op, sink=None):
         return stores[op[2]].regenerate(op[3], CUR[op[4]])
     if kind == "stop":
         return stores[op[1]].stop_regeneration()
+    if kind == "loop_run":
+        r = TOPO["loop"].run(op[1])
+        return bool(r.blocked)
+    if kind == "vote":
+        r = TOPO["quorum"].run_vote(op[1])
+        return bool(r.reached)
     raise HarnessError(f"unknown op {op}")
+
+
+TOPO = {}
 
 
 def run(plan, k):
     global SCOPE
     if SCOPE is None:
-        SCOPE = [seams.src("operon_ai/state/metabolism.py")]
+        SCOPE = [seams.src("operon_ai/state/metabolism.py"), seams.src("operon_ai/topology/loops.py"),
+                 seams.src("operon_ai/topology/quorum.py")]
     cfgs = plan["config"]["stores"]
+    topo = plan["config"].get("topo")
     sched = Sched(k, plan["config"].get("strategy"), switches=plan.get("switches"),
                   rng=derive(plan.get("_seedpath", "replay"), "sched"), scope=SCOPE, max_steps=60_000)
     stores = [_mk_store(c) for c in cfgs]
@@ -154,6 +196,26 @@ def run(plan, k):
         seams.assert_sim_lock(st)
     hist = []          # dicts: id, task, op, inv, ret, obs
     bad = []
+    TOPO.clear()
+    if topo:
+        # real call sites spending from the shared store: their consume() calls are recorded at instance level
+        TOPO["loop"] = CoherentFeedForwardLoop(budget=stores[0], enable_cache=topo["cache"], silent=True)
+        TOPO["quorum"] = QuorumSensing(n_agents=topo["voters"], budget=stores[0], silent=True)
+        real_consume = stores[0].consume
+
+        def consume_rec(cost, operation="unknown", energy_type=EnergyType.ATP, allow_debt=False, priority=0):
+            cur = sched.cur
+            if cur is None or cur.op not in ("loop_run", "vote"):
+                return real_consume(cost, operation, energy_type, allow_debt, priority)
+            inv = k.ev("inv", [cur.name, "agent_consume", cost])
+            r = real_consume(cost, operation, energy_type, allow_debt, priority)
+            ret = k.ev("ret", [cur.name, "agent_consume", r])
+            cname = [n for n, e in CUR.items() if e == energy_type][0]
+            hist.append({"id": len(hist), "task": cur.name, "op": ["consume", 0, cost, cname, allow_debt, priority],
+                         "inv": inv, "ret": ret, "obs": r})
+            k.probe("agent_spend_recorded")
+            return r
+        stores[0].consume = consume_rec
 
     # timer-driven regenerations are operations too: wrap at instance level, only for background tasks
     for si, st in enumerate(stores):
@@ -202,7 +264,7 @@ def run(plan, k):
                     raise HarnessError(f"unexpected outcome {out.kind} inside a scheduled task")
                 else:
                     obs = out.value
-                if op[0] != "stop":
+                if op[0] not in ("stop", "loop_run", "vote"):
                     hist.append({"id": len(hist), "task": ti, "op": op, "inv": inv, "ret": ret, "obs": obs})
                 for si, st in enumerate(stores):
                     s = _state(st)
@@ -310,3 +372,5 @@ def run(plan, k):
             k.violation("linearizable", "lost_update_total_consumed", "consume", f"store{si}: {got} != {want}")
     for st in stores:
         st.__dict__.pop("regenerate", None)
+        st.__dict__.pop("consume", None)
+    TOPO.clear()
